@@ -221,14 +221,31 @@ func offerTexts(os []offer) []string {
 var mtypes = []string{"text", "application", "image"}
 
 func msubs(t string) []string {
-	switch t {
-	case "text":
+	related := func(base string) bool { return strings.HasPrefix(t, base) || strings.HasPrefix(base, t) }
+	switch {
+	case related("text"):
 		return []string{"html", "plain", "css", "xml"}
-	case "application":
+	case related("application"):
 		return []string{"json", "xml", "octet-stream"}
 	default:
 		return []string{"png", "jpeg"}
 	}
+}
+
+// sibling returns a different token that is a strict prefix or a strict extension of t
+// (text -> tex / textual, gzip -> gz / gzipx, en -> e / eng): names that only a prefix test
+// would confuse.
+func sibling(r *gen.Rand, t string) string {
+	if t == "*" || t == "" {
+		return t
+	}
+	if len(t) >= 2 && r.Bool() {
+		p := strings.TrimRight(t[:r.Range(1, len(t)-1)], "-.")
+		if p != "" {
+			return p
+		}
+	}
+	return t + gen.Pick(r, []string{"x", "ual", "s", "2", "-x"})
 }
 
 func extOf(mime string) string {
@@ -402,6 +419,13 @@ func genHeader(r *gen.Rand, k int, hostile bool) []rng {
 					x.typ = gen.Pick(r, mtypes)
 					x.sub = gen.Pick(r, msubs(x.typ))
 				}
+				if r.Chance(1, 8) {
+					if x.sub == "*" || r.Bool() {
+						x.typ = sibling(r, x.typ)
+					} else {
+						x.sub = sibling(r, x.sub)
+					}
+				}
 				np := r.PickW(58, 25, 11, 6)
 				for j := 0; j < np; j++ {
 					x.params = append(x.params, genParam(r, hostile))
@@ -418,6 +442,9 @@ func genHeader(r *gen.Rand, k int, hostile bool) []rng {
 					x.typ = "*"
 				} else {
 					x.typ = gen.Pick(r, tokPools[k])
+					if r.Chance(1, 8) {
+						x.typ = sibling(r, x.typ)
+					}
 				}
 			}
 		}
@@ -476,6 +503,9 @@ func genOffers(r *gen.Rand, k int, h []rng, allowExt, allowEmpty bool) []offer {
 			} else {
 				o.text = gen.Pick(r, tokPools[k])
 			}
+			if r.Chance(1, 6) {
+				o.text = sibling(r, o.text)
+			}
 			os = append(os, o)
 			continue
 		}
@@ -484,6 +514,14 @@ func genOffers(r *gen.Rand, k int, h []rng, allowExt, allowEmpty bool) []offer {
 		} else {
 			o.typ = gen.Pick(r, mtypes)
 			o.sub = gen.Pick(r, msubs(o.typ))
+		}
+		if r.Chance(1, 6) {
+			// a type or subtype that is only a prefix / an extension of the one the range names
+			if r.Bool() {
+				o.typ = sibling(r, o.typ)
+			} else {
+				o.sub = sibling(r, o.sub)
+			}
 		}
 		if allowExt && r.Chance(1, 5) {
 			if e := extOf(o.typ + "/" + o.sub); e != "" {
